@@ -433,6 +433,7 @@ namespace sim
 	private:
 
 		void on_lookup(boost::system::error_code const& ec);
+		void wait_for_next();
 
 		struct result_t
 		{
@@ -465,6 +466,10 @@ namespace sim
 		using queue_t = aux::noexcept_movable<std::vector<result_t>>;
 
 		queue_t m_queue;
+
+		// expires with this object: a timer expiry that is already posted
+		// when the resolver is destroyed must not touch it
+		std::shared_ptr<int> m_alive = std::make_shared<int>(0);
 	};
 
 	struct SIMULATOR_DECL udp
